@@ -2,9 +2,12 @@ import MpfVerif.Gen.DriverVerify
 /-!
 # Driver command paths and software timers (C08) — hand model on top of the *generated* limit functions
 
-`pulse / enable / timed_enable / disable / _pulse_now / _enable_now / _enable_limit_reached` of `mpf/devices/driver.py`
-with `max_wait_ms = None` (no PSU delay).  Time is in milliseconds.  The limit checks are not re-modelled here: the
-ops call the translated programs of `Gen/DriverVerify.lean` through the interpreter.
+`pulse / enable / timed_enable / disable / _pulse_now / _enable_now / _enable_limit_reached` of `mpf/devices/driver.py`,
+with and without `max_wait_ms`: a request the PSU delays (`_notify_psu_and_get_wait_ms` answers `wait_ms > 0`; the answer
+is an input) becomes a pending call (`St.pend`) that runs `_pulse_now` / `_enable_now` when its nameless delay is due.
+Time is in milliseconds.  The limit checks are not re-modelled here: the ops call the translated programs of
+`Gen/DriverVerify.lean` through the interpreter.  The event loop is not modelled as a policy: `fire w` runs one chosen
+timer (any order among same-instant timers), `advance` runs everything due in a canonical order.
 -/
 namespace MpfVerif.Driver
 open MpfVerif.Py MpfVerif.Gen.DriverVerify
@@ -16,12 +19,31 @@ inductive Cmd
   | disable
   deriving DecidableEq, Repr
 
+/-- a call delayed by the PSU: `delay.add(wait_ms, self._pulse_now / self._enable_now, **kwargs)` (a nameless delay:
+nothing in `driver.py` can cancel it) with its due time and the already verified arguments -/
+inductive Pend
+  | pulseNow (due : Nat) (pm pp : PyVal)
+  | enableNow (due : Nat) (pm pp hp : PyVal)
+  deriving DecidableEq, Repr
+
+def Pend.due : Pend → Nat
+  | .pulseNow d _ _ => d
+  | .enableNow d _ _ _ => d
+
 structure St where
   now : Nat := 0
   timedDisable : Option Nat := none      -- delay "timed_disable"
   limitDue : Option Nat := none          -- delay "enable_limit_reached"
   softOn : Bool := false                 -- ghost: last hold-type command was a software-timed pulse still on
-  holdSince : Option Nat := none         -- ghost: coil enabled (by `enable`) since, not yet disabled
+  holdSince : Option Nat := none         -- ghost: coil enabled (by `_enable_now`) since, not yet disabled
+  pend : List Pend := []                 -- PSU-delayed `_pulse_now` / `_enable_now` calls, in the order they were added
+
+/-- a timer of the coil's delay manager -/
+inductive Which
+  | td                -- "timed_disable"
+  | lim               -- "enable_limit_reached"
+  | pend (i : Nat)    -- the i-th PSU-delayed call
+  deriving DecidableEq, Repr
 
 inductive Op
   | pulse (ms pw : PyVal)
@@ -29,6 +51,15 @@ inductive Op
   | timedEnable (te hp ms pw : PyVal)
   | disable
   | advance (dt : Nat)
+  /-- `pulse(ms, pw, max_wait_ms = mw)`; `w` is what the PSU answers to `get_wait_time_for_pulse` (an input) -/
+  | pulseW (ms pw mw w : PyVal)
+  /-- `enable(ms, pw, hp, max_wait_ms = mw)` -/
+  | enableW (ms pw hp mw w : PyVal)
+  /-- `timed_enable(te, hp, ms, pw, max_wait_ms = mw)` (the PSU is asked, the command is sent at once) -/
+  | timedEnableW (te hp ms pw mw : PyVal)
+  /-- the event loop runs one timer: the clock jumps to its deadline.  Enabled only when no other timer is due earlier;
+  the order among timers due at the same instant is the caller's choice -/
+  | fire (w : Which)
 
 def vPulseMs (c : Ctx) (x : PyVal) := call c get_and_verify_pulse_ms [("pulse_ms", x)]
 def vPulsePower (c : Ctx) (x : PyVal) := call c get_and_verify_pulse_power [("pulse_power", x)]
@@ -42,6 +73,10 @@ def msOf : PyVal → Nat
 /-- `max_hold_duration * 1000` in ms (config value in seconds: int or float in micro-units) -/
 def secsToMs : PyVal → Nat
   | .int i => (i * 1000).toNat | .flt m => (m / 1000).toNat | .bool true => 1000 | _ => 0
+
+/-- a delay duration in ms: the delay manager gets an int (ms) or a float (micro-units) -/
+def delayMs : PyVal → Nat
+  | .int i => i.toNat | .bool true => 1 | .flt m => (m / 1000000).toNat | _ => 0
 
 def doDisable (s : St) : St × List Cmd :=
   ({ s with limitDue := none, softOn := false, holdSince := none }, [.disable])
@@ -63,6 +98,17 @@ def pulseNow (c : Ctx) (s : St) (pm pp : PyVal) : Except Err (St × List Cmd) :=
     if a && b then pure (s, [.pulse pp pm])
     else pure ({ s with timedDisable := some (s.now + msOf pm), softOn := true }, [.enable pp (.int 0) pp true])
 
+/-- `_enable_now(pulse_ms, pulse_power, hold_power)` with already verified values: the platform command, and the
+`max_hold_duration` watchdog armed NOW (`add_if_doesnt_exist`: a running watchdog is kept) -/
+def enableNow (c : Ctx) (s : St) (pm pp h : PyVal) : St × List Cmd :=
+  let md := c.cfg "max_hold_duration"
+  let s1 := { s with softOn := false, holdSince := some (s.holdSince.getD s.now) }
+  let s2 := if md.truthy && s.limitDue.isNone then { s1 with limitDue := some (s.now + secsToMs md) } else s1
+  (s2, [.enable pp pm h false])
+
+/-- `_notify_psu_and_get_wait_ms`: 0 without `max_wait_ms`, else what the PSU answers -/
+def waitOf (mw w : PyVal) : PyVal := if mw = .none then .int 0 else w
+
 def doOp (c : Ctx) (s : St) : Op → Except Err (St × List Cmd)
   | .pulse ms pw => do
     let pm ← vPulseMs c ms
@@ -73,52 +119,111 @@ def doOp (c : Ctx) (s : St) : Op → Except Err (St × List Cmd)
     let pp ← vPulsePower c pw
     let h ← vHoldPower c hp
     if (← pyCmp "==" h (.flt 0)) then throw "DriverLimitsError"
-    let md := c.cfg "max_hold_duration"
-    let s1 := { s with softOn := false, holdSince := some (s.holdSince.getD s.now) }
-    let s2 := if md.truthy && s.limitDue.isNone then { s1 with limitDue := some (s.now + secsToMs md) } else s1
-    pure (s2, [.enable pp pm h false])
+    pure (enableNow c s pm pp h)
   | .timedEnable te hp ms pw => doTimedEnable c s te hp ms pw
   | .disable => pure (doDisable s)
   | .advance _ => pure (s, [])
+  | .pulseW ms pw mw w => do
+    let pm ← vPulseMs c ms
+    let pp ← vPulsePower c pw
+    if (← pyCmp ">" (waitOf mw w) (.int 0)) then
+      pure ({ s with pend := s.pend ++ [.pulseNow (s.now + delayMs (waitOf mw w)) pm pp] }, [])
+    else pulseNow c s pm pp
+  | .enableW ms pw hp mw w => do
+    let pm ← vPulseMs c ms
+    let pp ← vPulsePower c pw
+    let h ← vHoldPower c hp
+    if (← pyCmp "==" h (.flt 0)) then throw "DriverLimitsError"
+    if (← pyCmp ">" (waitOf mw w) (.int 0)) then
+      pure ({ s with pend := s.pend ++ [.enableNow (s.now + delayMs (waitOf mw w)) pm pp h] }, [])
+    else pure (enableNow c s pm pp h)
+  | .timedEnableW te hp ms pw _ => doTimedEnable c s te hp ms pw
+  | .fire _ => pure (s, [])
 
-/-- fire the (at most two) software timers that are due at `s.now`; both callbacks are `disable` -/
+def fireTd (s : St) : St × List Cmd :=
+  match s.timedDisable with
+  | some d => if d ≤ s.now then doDisable { s with timedDisable := none } else (s, [])
+  | none => (s, [])
+
+def fireLim (s : St) : St × List Cmd :=
+  match s.limitDue with
+  | some d => if d ≤ s.now then doDisable { s with limitDue := none } else (s, [])
+  | none => (s, [])
+
+/-- fire the (at most two) named software timers that are due at `s.now`; both callbacks are `disable` -/
 def fireDue (s : St) : St × List Cmd :=
-  let (s1, o1) := match s.timedDisable with
-    | some d => if d ≤ s.now then (let (s', o) := doDisable { s with timedDisable := none }; (s', o)) else (s, [])
-    | none => (s, [])
-  let (s2, o2) := match s1.limitDue with
-    | some d => if d ≤ s1.now then doDisable { s1 with limitDue := none } else (s1, [])
-    | none => (s1, [])
-  (s2, o1 ++ o2)
+  ((fireLim (fireTd s).1).1, (fireTd s).2 ++ (fireLim (fireTd s).1).2)
+
+/-- deadlines of all registered timers -/
+def dues (s : St) : List Nat := s.timedDisable.toList ++ s.limitDue.toList ++ s.pend.map Pend.due
+
+def listMin : List Nat → Option Nat
+  | [] => none
+  | a :: r => match listMin r with | some b => some (min a b) | none => some a
 
 /-- the earliest pending timer -/
-def nextDue (s : St) : Option Nat :=
-  match s.timedDisable, s.limitDue with
-  | some a, some b => some (min a b)
-  | some a, none => some a
-  | none, some b => some b
-  | none, none => none
+def nextDue (s : St) : Option Nat := listMin (dues s)
 
-/-- run the clock up to `target`, stopping at every timer deadline on the way; every stop cancels at least one of
-the two timers, so fuel 3 is always enough (`advance` passes 3) -/
-def advanceTo : Nat → St → Nat → St × List (Nat × Cmd)
-  | 0, s, target => ({ s with now := target }, [])
+def dueOf (s : St) : Which → Option Nat
+  | .td => s.timedDisable
+  | .lim => s.limitDue
+  | .pend i => (s.pend[i]?).map Pend.due
+
+/-- run the callback of a PSU-delayed call (the delay manager has dropped the entry already); an exception raised by the
+callback leaves the platform untouched -/
+def runPend (c : Ctx) (s : St) : Pend → St × List Cmd
+  | .pulseNow _ pm pp => match pulseNow c s pm pp with | .ok r => r | .error _ => (s, [])
+  | .enableNow _ pm pp h => enableNow c s pm pp h
+
+/-- run timer `w` with the clock already at (or past) its deadline: the entry is dropped, then the callback runs -/
+def runTimer (c : Ctx) (s : St) : Which → St × List Cmd
+  | .td => doDisable { s with timedDisable := none }
+  | .lim => doDisable { s with limitDue := none }
+  | .pend i => match s.pend[i]? with
+    | some p => runPend c { s with pend := s.pend.eraseIdx i } p
+    | none => (s, [])
+
+/-- `fire w`: enabled iff `w` is registered and no timer is due earlier; the clock jumps to the deadline -/
+def fire (c : Ctx) (s : St) (w : Which) : Option (St × List Cmd) :=
+  match dueOf s w with
+  | some d => if nextDue s = some d then some (runTimer c { s with now := max d s.now } w) else none
+  | none => none
+
+/-- the first timer (canonical order: timed_disable, enable_limit_reached, delayed calls in the order they were added)
+whose deadline is `d` -/
+def firstAt (s : St) (d : Nat) : Which :=
+  if s.timedDisable = some d then .td else if s.limitDue = some d then .lim
+  else .pend (s.pend.findIdx (fun p => p.due == d))
+
+/-- run the clock up to `target`, stopping at every timer deadline on the way and running ONE timer per stop.  Out of
+fuel the clock stays at the last stop (never past an unfired timer); `advance` passes enough fuel
+(`advance_reaches_target`). -/
+def advanceTo (c : Ctx) : Nat → St → Nat → St × List (Nat × Cmd)
+  | 0, s, _ => (s, [])
   | fuel + 1, s, target =>
     match nextDue s with
     | some d =>
       if d ≤ target then
-        let (s1, o) := fireDue { s with now := max d s.now }
-        let (s2, o2) := advanceTo fuel s1 target
-        (s2, o.map (fun c => (max d s.now, c)) ++ o2)
-      else ({ s with now := target }, [])
-    | none => ({ s with now := target }, [])
+        let (s1, o) := runTimer c { s with now := max d s.now } (firstAt s d)
+        let (s2, o2) := advanceTo c fuel s1 target
+        (s2, o.map (fun x => (max d s.now, x)) ++ o2)
+      else ({ s with now := max target s.now }, [])
+    | none => ({ s with now := max target s.now }, [])
 
-def advance (s : St) (dt : Nat) : St × List (Nat × Cmd) := advanceTo 3 s (s.now + dt)
+/-- every firing removes a timer; a delayed call may add one of the two named timers -/
+def fuelFor (s : St) : Nat := 2 * s.pend.length + 3
 
-/-- one harness step: the op itself, then everything that is due now (the harness runs the loop after every op) -/
+def advance (c : Ctx) (s : St) (dt : Nat) : St × List (Nat × Cmd) := advanceTo c (fuelFor s) s (s.now + dt)
+
+/-- one harness step: a request, then the named timers that are due now (the harness runs the loop after every request);
+a clock advance running everything that becomes due (canonical order among same-instant timers); or one explicit timer -/
 def step (c : Ctx) (s : St) (op : Op) : St × Bool × List (Nat × Cmd) :=
   match op with
-  | .advance dt => let (s', o) := advance s dt; (s', true, o)
+  | .advance dt => let (s', o) := advance c s dt; (s', true, o)
+  | .fire w =>
+    match fire c s w with
+    | some (s', o) => (s', true, o.map (fun x => (s'.now, x)))
+    | none => (s, false, [])
   | _ =>
     match doOp c s op with
     | .ok (s1, o1) => let (s2, o2) := fireDue s1; (s2, true, (o1 ++ o2).map (fun c => (s.now, c)))
@@ -180,12 +285,25 @@ def driverStep (d : DSt) (line : String) : DSt × String :=
       | "enable", [_, a, b, c] => do pure (.enable (← parseVal a) (← parseVal b) (← parseVal c))
       | "timed_enable", [_, a, b, c, e] => do pure (.timedEnable (← parseVal a) (← parseVal b) (← parseVal c) (← parseVal e))
       | "disable", [_] => some .disable
+      | "pulse_wait", [a, b, m, w] => do pure (.pulseW (← parseVal a) (← parseVal b) (← parseVal m) (← parseVal w))
+      | "enable_wait", [a, b, h, m, w] => do
+        pure (.enableW (← parseVal a) (← parseVal b) (← parseVal h) (← parseVal m) (← parseVal w))
+      | "timed_enable_wait", [a, b, c, e, m] => do
+        pure (.timedEnableW (← parseVal a) (← parseVal b) (← parseVal c) (← parseVal e) (← parseVal m))
+      | "advance_to", [a] => a.toNat?.map (fun n => .advance (d.t0 + n - d.s.now))
+      | "fire", ["td"] => some (.fire .td)
+      | "fire", ["lim"] => some (.fire .lim)
+      | "fire", ["pend", i] => i.toNat?.map (fun n => .fire (.pend n))
       | "advance", [a] => do match (← parseVal a) with | .int i => pure (.advance (i.toNat * 125)) | _ => none
       | _, _ => none
     match op with
     | some o =>
       let (s', ok, cmds) := step d.ctx d.s o
-      ({ d with s := s' }, (if ok then "ok" else "refused") ++ String.join (cmds.map (showCmd d.t0)))
+      let verdict := match o, ok with
+        | .fire _, false => "not-enabled"
+        | _, true => "ok"
+        | _, false => "refused"
+      ({ d with s := s' }, verdict ++ String.join (cmds.map (showCmd d.t0)))
     | none => (d, "bad-op")
   | _ => (d, "bad-op")
 
